@@ -58,6 +58,8 @@ type kCase struct {
 	First []kEvent `json:"first"`
 	Depth int      `json:"depth"`
 	Gob   bool     `json:"gob,omitempty"`
+	// SameVal: every Set of a key writes the same value (different times), so merges meet equal values
+	SameVal bool `json:"same_val,omitempty"`
 	// Deep selects the reduced alphabet {Set, Tombstone(h1), Commit, re-Open} on 2 handles with times in
 	// execution order, which reaches long version chains (TraceHistory, Diff over merges).
 	Deep bool `json:"deep,omitempty"`
@@ -110,6 +112,7 @@ func c17Run(r *engine.Run) int {
 		r.SetBudget(40 * 60 * 1e9)
 	}
 	var cases []json.RawMessage
+	sameVal := false
 	add := func(mode string, keys, depth int, gob bool) {
 		alpha := c17Alphabet(keys)
 		for _, a := range alpha {
@@ -121,16 +124,16 @@ func c17Run(r *engine.Run) int {
 					continue
 				}
 				if depth < 5 {
-					cases = append(cases, engine.J(kCase{Mode: mode, Keys: keys, First: []kEvent{a, b}, Depth: depth, Gob: gob}))
+					cases = append(cases, engine.J(kCase{Mode: mode, Keys: keys, First: []kEvent{a, b}, Depth: depth, Gob: gob, SameVal: sameVal}))
 					continue
 				}
 				// deeper runs are sharded by three-event prefixes for an even load
-				cases = append(cases, engine.J(kCase{Mode: mode, Keys: keys, First: []kEvent{a, b}, Depth: 2, Gob: gob}))
+				cases = append(cases, engine.J(kCase{Mode: mode, Keys: keys, First: []kEvent{a, b}, Depth: 2, Gob: gob, SameVal: sameVal}))
 				for _, c3 := range alpha {
-					cases = append(cases, engine.J(kCase{Mode: mode, Keys: keys, First: []kEvent{a, b, c3}, Depth: depth, Gob: gob}))
+					cases = append(cases, engine.J(kCase{Mode: mode, Keys: keys, First: []kEvent{a, b, c3}, Depth: depth, Gob: gob, SameVal: sameVal}))
 				}
 			}
-			cases = append(cases, engine.J(kCase{Mode: mode, Keys: keys, First: []kEvent{a}, Depth: 1, Gob: gob}))
+			cases = append(cases, engine.J(kCase{Mode: mode, Keys: keys, First: []kEvent{a}, Depth: 1, Gob: gob, SameVal: sameVal}))
 		}
 	}
 	for _, mode := range []string{"lww", "conflict", "max"} {
@@ -146,6 +149,18 @@ func c17Run(r *engine.Run) int {
 	} else {
 		add("lww", 1, 4, true)
 	}
+	// every Set of a key writes the same value: merges of equal values with different times (the entry must
+	// still carry the latest time, or a stale third write wins later)
+	sameVal = true
+	for _, mode := range []string{"lww", "conflict"} {
+		d := 4
+		if r.Thorough() {
+			d = 5
+		}
+		add(mode, keys, d, false)
+	}
+	sameVal = false
+	r.Bounds["same_value_slice"] = "modes lww, conflict; depth 4 (quick) / 5 (thorough)"
 	deepDepth := 7
 	if r.Thorough() {
 		deepDepth = 9
@@ -184,6 +199,23 @@ func c17Run(r *engine.Run) int {
 			}
 		}
 	}
+	// the reduced deep-chain alphabet once more in conflict-callback mode with equal values: long enough to
+	// commit the same value twice at different times on two handles and merge them in every version-list order
+	sd := 6
+	if r.Thorough() {
+		sd = 8
+	}
+	for _, a := range da {
+		if a.H != 0 {
+			continue
+		}
+		for _, b := range da {
+			for _, c3 := range da {
+				cases = append(cases, engine.J(kCase{Mode: "conflict", Keys: 1, First: []kEvent{a, b, c3}, Depth: sd, Deep: true, SameVal: true}))
+			}
+		}
+	}
+	r.Bounds["same_value_chain_depth"] = sd
 	n := 0
 	r.MapBudget("c17", cases, func(i int, c json.RawMessage, res *engine.Result) {
 		r.Add("c17", c, res)
@@ -543,6 +575,9 @@ func c17Exec(c kCase, evs []kEvent, res *engine.Result, sample *interface{}, pro
 		switch e.T {
 		case "set":
 			val := 100 + i
+			if c.SameVal {
+				val = 100 + e.K
+			}
 			if err := h.db.Set(ctx, kT(e.Rank), e.K, val); err != nil {
 				viol("set-failed", "%v", err)
 				return false
@@ -671,6 +706,9 @@ func c17Exec(c kCase, evs []kEvent, res *engine.Result, sample *interface{}, pro
 				entries++
 				if !v.Tombstoned() {
 					got[k.(int)] = v.Value.(int)
+					if m, ok := h.state[k.(int)]; ok && m.Tomb == 0 && v.Value.(int) == m.Val && v.ModEpochNanos != kT(m.Time).UnixNano() {
+						viol("value-time", "h%d: key %v = %v carries time %s, the latest Set of that value merged into this handle is rank %d (%s)", hi+1, k, v.Value, time.Unix(0, v.ModEpochNanos).UTC().Format("15:04:05"), m.Time, kT(m.Time).UTC().Format("15:04:05"))
+					}
 				} else if m, ok := h.state[k.(int)]; ok && m.Tomb != 0 && v.TombstoneSinceEpochNanos != kT(m.Tomb).UnixNano() {
 					viol("tombstone-time", "h%d: key %v carries the tombstone of %s, the earliest tombstone merged is that of rank %d (%s)", hi+1, k, time.Unix(0, v.TombstoneSinceEpochNanos).UTC().Format("15:04:05"), m.Tomb, kT(m.Tomb).UTC().Format("15:04:05"))
 				}
@@ -717,6 +755,53 @@ func c17Exec(c kCase, evs []kEvent, res *engine.Result, sample *interface{}, pro
 						viol("trace-history-uncommitted", "h%d.TraceHistory(k%d) yields %v@%d which was never committed for that key (committed: %v)", hi+1, k, x.v, rank, committedVals[k])
 					}
 				}
+			}
+		}
+	}
+	// Diff between every ordered pair of live handles (their trees as they are, uncommitted entries included)
+	for ai, a := range hs {
+		for bi, bh := range hs {
+			if ai == bi {
+				continue
+			}
+			got := map[int]string{}
+			err := bh.db.Diff(ctx, a.db, func(key, myValue, fromValue interface{}) (bool, error) {
+				got[key.(int)] = fmt.Sprintf("%v<-%v", myValue, fromValue)
+				return true, nil
+			})
+			if err != nil {
+				cls := "live-diff-failed"
+				if a.db.Size() == 0 || bh.db.Size() == 0 {
+					// one of the two trees is empty. A handle that never held an entry has no root node and diffs
+					// fine; one whose last entry was removed keeps an empty root node in memory (also across its
+					// Commit) and mast's diff trips over it (dependency; see KNOWN_FINDINGS)
+					cls = "live-diff-failed:emptied-tree"
+				}
+				viol(cls, "h%d.Diff(h%d): %v", bi+1, ai+1, err)
+				continue
+			}
+			want := map[int]string{}
+			va, vb := a.state.visible(), bh.state.visible()
+			for k := 1; k <= c.Keys; k++ {
+				x, okx := va[k]
+				y, oky := vb[k]
+				if okx != oky || (okx && x != y) {
+					var xs, ys interface{}
+					if okx {
+						xs = x
+					}
+					if oky {
+						ys = y
+					}
+					want[k] = fmt.Sprintf("%v<-%v", ys, xs)
+				}
+			}
+			if fmt.Sprint(got) != fmt.Sprint(want) {
+				cls := "live-diff"
+				if a.dirty || bh.dirty {
+					cls = "live-diff:uncommitted"
+				}
+				viol(cls, "h%d.Diff(from h%d) reports %v, the visible values differ for %v (h%d %+v dirty=%v, h%d %+v dirty=%v)", bi+1, ai+1, got, want, ai+1, a.state, a.dirty, bi+1, bh.state, bh.dirty)
 			}
 		}
 	}
